@@ -8,6 +8,7 @@ pub mod c07;
 pub mod c11;
 pub mod c12;
 pub mod c16;
+pub mod c17;
 pub mod lang;
 
 pub struct Case {
@@ -67,6 +68,7 @@ pub fn generate(prop: &str, tier: &str, g: &mut Gen) {
     match prop {
         "C12" => c12::generate(g, thorough),
         "C16" => c16::generate(g, thorough),
+        "C17" => c17::generate(g, thorough),
         "C02" => c02::generate(g, thorough),
         "C03" => lang::generate_c03(g, thorough),
         "C04" => c04::generate(g, thorough),
